@@ -106,6 +106,9 @@ fn main() {
             if let Some(p) = args.get("in") {
                 evgen::replay(&mut run, p, args.num("seed", 1));
             }
+            if let Some(p) = args.get("names") {
+                evgen::from_names(&mut run, p, args.num("names-stride", 40) as usize);
+            }
             if let Some(p) = args.get("mcp") {
                 evgen::from_mcp(&mut run, p, args.num("seed", 1), args.num("mcp-stride", 1) as usize);
             }
